@@ -40,10 +40,20 @@ FIXED = [
     ("C18", "c679315", "with `symlinks` a relative link target was resolved against the process cwd instead of the link's directory (`a/b/up -> ..` walked the parent of the cwd; deeper relative links failed to canonicalize), and a link to a regular file was entered as a directory (`Not a directory`, status 1)", ["relative-up-from-depth-2", "relative-sibling-dir-deep", "link-to-file", "outside-and-cycle"]),
     ("C18", "017fff0", "with `symlinks` a directory reachable directly and through a link (or through two links) was listed once per spelling of its path", ["dir-direct-and-via-link"]),
     ("C19", "2e20137", "an `archives` search panicked when the current date is the 31st or 29 February and a member's stored month has no such day (member time built from Local::now() with fields replaced one by one)", ["clock-on-the-31st", "clock-on-feb-29"]),
+    ("C20", "2400262", "gitignore filtering with a relative root: entries were passed to libgit2 as displayed (`./a.log`, or relative to a cwd below the work tree), `from . gitignore` dropped every entry", ["git-dot-root", "git-relative-sub", "git-cwd-below"]),
+    ("C20", "c2f47c2", "hgignore: `^rooted` regexps never matched (missing separator), glob tails unanchored (`*.log` hid a.logx), `?` matched a run of characters, unescaped literals", ["hg-glob-tail", "hg-rooted-regexp", "hg-qmark"]),
+    ("C20", "e58d1ff", "dockerignore: patterns unrooted and tails unanchored, any matching `!` line won regardless of order", ["docker-rooted", "docker-negation-order", "docker-starstar"]),
 ]
 
+_GIT_NEG_TREE = {"B": {"t": "d", "ch": {"a.log": {"t": "f", "c": ""}, "b.log": {"t": "f", "c": ""}}}, "a.log": {"t": "f", "c": ""}, "c.txt": {"t": "f", "c": ""}}
+
 OPEN = [
-    # dicts: id, property, signature, what, pinned_case
+    {"id": "K01", "property": "C20", "signature": "C20/git/over-ignore/negation-after-dir-pattern",
+     "what": "gitignore: a negated pattern without a slash (`!a.log`) that follows a directory-prefixed pattern (`B/*.log`) does not "
+             "re-include `B/a.log` although `git check-ignore` does: the verdict comes from libgit2 (git2 crate), whose "
+             "does_negate_rule heuristic drops such a negation - not repairable by a small patch in fselect",
+     "pinned_case": {"tree": _GIT_NEG_TREE, "tool": "git", "lines": ["B/*.log", "!a.log"], "root": "abs", "sub": None,
+                     "switch": "option", "mode": ""}},
 ]
 
 
